@@ -380,6 +380,35 @@ open AslModel.ThreadEnd in
 example : let c := run (init true true false) [Act.worker, Act.worker, Act.worker, Act.poll, Act.delete, Act.worker]
     c.owner = 2 ∧ c.stateRefs = 0 ∧ c.bad = false ∧ c.wpc = 4 := by decide
 
+open AslModel.ThreadCopies in
+/-- **thread_copies_safe.**  Thread objects sharing one reference-counted state (copy construction, assignment, storing in
+    an array: any number of copies), dropped in any order before or after the worker sets `finished` and releases its own
+    reference: the released state is never used or released twice; its count is exactly (live objects) + (worker not over);
+    it is released exactly once, when the last of them goes; and `finished()` read through ANY live object is the worker's
+    flag — false until the worker has set it, true from then on. -/
+theorem thread_copies_safe (r : List Act) :
+    let c := run init r
+    c.bad = false ∧ c.refs = c.objs + (if c.worker < 2 then 1 else 0) ∧ c.frees = (if c.stateAlive then 0 else 1) ∧
+    (0 < c.objs → readFinished c = some (decide (1 ≤ c.worker))) := by
+  intro c
+  have h := AslProofs.ThreadCopies.run_inv r _ AslProofs.ThreadCopies.init_inv
+  refine ⟨h.nb, h.rc, h.fr, fun ho => ?_⟩
+  have hrc := h.rc
+  have hal : c.stateAlive = true := by
+    have : 0 < c.refs := by
+      show 0 < (run init r).refs
+      have : 0 < (run init r).objs := ho
+      omega
+    rw [h.al]; simpa using this
+  have hfl : c.finished = decide (1 ≤ c.worker) := h.fl
+  unfold readFinished
+  simp [ho, hal, hfl]
+
+open AslModel.ThreadCopies in
+/-- non-vacuity: the original is dropped while the thread runs, a copy reads `finished()` after the thread is over, then goes -/
+example : let c := run init [Act.copy, Act.drop, Act.finish, Act.release]
+    readFinished c = some true ∧ c.refs = 1 ∧ (run c [Act.drop]).frees = 1 ∧ (run c [Act.drop]).bad = false := by decide
+
 end StartAndEnd
 
 end C13
